@@ -204,13 +204,22 @@ func (w *Worker) Run() {
 		w.P.Custom(w)
 		return
 	}
+	defer func() {
+		if r := recover(); r != nil {
+			if _, ok := r.(stopEnum); !ok {
+				panic(r)
+			}
+		}
+	}()
 	w.P.Enumerate(w.Tier, func(c *Case) {
 		if w.stopped {
-			return
+			panic(stopEnum{}) // unwind the enumerator: the deadline was hit
 		}
 		w.Offer(c)
 	})
 }
+
+type stopEnum struct{}
 
 // Mine decides by key hash whether this worker owns the case, and de-duplicates.
 func (w *Worker) Mine(key string) bool {
